@@ -107,6 +107,29 @@ Ltac leaf :=
                   destruct (g_ansi_bright_true u L) as [b [-> Eb]]; rewrite Eb; reflexivity ]
       end ].
 
+(* fallback when the two chains do not test in the same order (arms of the Rust match reordered):
+   split the translated chain completely, then resolve every test of the hand model's chain from
+   what is known (by rewriting, else by arithmetic) *)
+Ltac lhs_split := repeat match goal with |- (if ?c then _ else _) = _ => destruct c eqn:? end.
+Ltac absurd_tests :=
+  exfalso;
+  repeat match goal with
+         | H : _ = true |- _ => revert H
+         | H : _ = false |- _ => revert H
+         end;
+  rewrite ?andb_true_iff, ?andb_false_iff, ?N.eqb_eq, ?N.eqb_neq, ?N.leb_le, ?N.leb_gt; intros; lia.
+Ltac rhs_known :=
+  repeat match goal with
+         | H : ?c = _ |- _ = step_res (if ?c then _ else _) => rewrite H; cbv iota
+         end.
+Ltac rhs_split :=
+  repeat (rhs_known;
+          match goal with
+          | |- _ = step_res (if ?c then _ else _) =>
+              let E := fresh "E" in destruct c eqn:E; try solve [absurd_tests]
+          end).
+Ltac chain := first [ solve [repeat (chain_step; [solve [leaf]|]); leaf] | lhs_split; rhs_split; leaf ].
+
 Lemma g_cap_csi_dispatch_eq cap ps ints ign a :
   g_cap_csi_dispatch cap ps ints ign a = capture_event cap (ECsi ps ints ign a).
 Proof.
@@ -127,11 +150,11 @@ Proof.
       clear. intros v s w r g t. cbv beta iota zeta.
       unfold value_step, in_rng. cbn [d_style d_state d_r d_g d_target].
       destruct w; cbn [wstate_eqb andb].
-      * repeat (chain_step; [solve [leaf]|]). leaf.
-      * repeat (chain_step; [solve [leaf]|]). leaf.
+      * chain.
+      * chain.
       * destruct t; reflexivity.
       * destruct r as [r0|]; [destruct g as [g0|]|]; try reflexivity. destruct t; reflexivity.
-      * repeat (chain_step; [solve [leaf]|]). leaf.
+      * chain.
 Qed.
 
 (* ---- the small callbacks and the plumbing ------------------------------------------------ *)
